@@ -35,7 +35,8 @@ Definition pix_ok (v : Z) : Prop := 0 <= v <= 65535.
 Definition wf_cfg (c : dcfg) : Prop :=
   (2 * d_edge c < d_w c)%nat /\ (2 * d_edge c < d_h c)%nat /\
   (d_w c * d_h c <= 1048576)%nat /\
-  pix_ok (d_tmin c) /\ pix_ok (d_tmax c).
+  pix_ok (d_tmin c) /\ pix_ok (d_tmax c) /\
+  (d_tmax c = 0 \/ d_tmin c <= d_tmax c).   (* when both bounds are set they are ordered *)
 
 Definition wf_frame (c : dcfg) (f : frame) : Prop :=
   forall y x, pix_ok (gget (f_pix f) y x).
@@ -222,6 +223,7 @@ Section C15.
      threshold is within 1 of the exact clamped mean and inside the configured bounds *)
   Hypothesis H_mean : forall vs tmin tmax,
       vs <> [] -> (length vs <= 1048576)%nat -> Forall pix_ok vs -> pix_ok tmin -> pix_ok tmax ->
+      (tmax = 0 \/ tmin <= tmax) ->
       let t := calc_thresh_gen tmin tmax (mean_fold vs) in
       let m := clampZ tmin tmax (zsum vs / Z.of_nat (length vs)) in
       Z.abs (t - m) <= 1 /\ (tmin = 0 \/ tmin <= t) /\ (tmax = 0 \/ t <= tmax).
@@ -315,7 +317,7 @@ Section C15.
                       (interior_sum c (new_bg c s f) / Z.of_nat (length (icoords c))) in
       Z.abs (t - m) <= 1 /\ (d_tmin c = 0 \/ d_tmin c <= t) /\ (d_tmax c = 0 \/ t <= d_tmax c).
     Proof.
-      destruct Hc as (Hcw & Hch & Hsz & Hmin & Hmax).
+      destruct Hc as (Hcw & Hch & Hsz & Hmin & Hmax & Hord).
       rewrite interior_sum_new_bg.
       replace (length (icoords c)) with (length (ivals c s f)) by (unfold ivals; apply map_length).
       assert (Hlen : length (ivals c s f) =
